@@ -3,7 +3,7 @@
 cd "$(dirname "$0")/.." || exit 2
 TIER=${1:-quick}; export VERIF_SEED=${2:-0}
 mkdir -p .work
-for p in C01 C06 C07 C09 C11 C12 C13 C14 C15 C16 C17 C18 C19 C20 C08 C10 C02 C03 C04 C05; do
+for p in ${PROPS:-C01 C06 C07 C09 C11 C12 C13 C14 C15 C16 C17 C18 C19 C20 C08 C10 C02 C03 C04 C05}; do
   s=$(date +%s)
   ./check $p --tier $TIER > .work/sweep_$p.out 2>&1; rc=$?
   echo "$p tier=$TIER seed=$VERIF_SEED rc=$rc $(( $(date +%s) - s ))s violations=$(grep -c VIOLATION .work/sweep_$p.out) known=$(grep -c KNOWN-FINDING .work/sweep_$p.out) :: $(tail -1 .work/sweep_$p.out | cut -c1-100)"
